@@ -167,8 +167,11 @@ func Harness_C06_RescaleTwice() {
 	verif.FixedRand(3, 1, 4, 1, 5, 9, 2, 6)
 	verif.Abstract("bloom.Filter")
 	root := storage.NewMemoryFilesystem()
+	// small memtables: every generation flushes and compacts; large: the whole history stays in
+	// the write-ahead logs, which each restore replays through the ownership filter
+	mem := uint64([]int{20, 1 << 16}[verif.Choose("memtable-size", 2)])
 	opts := func(fs storage.FileSystem, own kv.DataOwnership) DBOptions {
-		return DBOptions{FileSystem: fs, MemTableSize: 20, TargetFileSize: 1 << 16, L0TableNumCompactionTrigger: 2, DataOwnership: own}
+		return DBOptions{FileSystem: fs, MemTableSize: mem, TargetFileSize: 1 << 16, L0TableNumCompactionTrigger: 2, DataOwnership: own}
 	}
 	want := map[string][]byte{}
 	var keys [][]byte
